@@ -437,7 +437,8 @@ RunAction(s, a, next) ==
        IN \* set_result / set_exception on the action future; if user code reached from the action replaced
           \* (and so cancelled) the very action that is running, both raise InvalidStateError out of step()
           \* (known finding D10)
-          IF "F13" \in Fixes /\ r.s.acts[a].status = "cancelled" /\ r.exc = NoExc THEN Ok(r.s, None)   \* called off meanwhile: stays cancelled
+          \* called off meanwhile: stays cancelled (F13: when the function returns; F13b: also when it then raises)
+          IF "F13" \in Fixes /\ r.s.acts[a].status = "cancelled" /\ (r.exc = NoExc \/ "F13b" \in Fixes) THEN Ok(r.s, None)
           ELSE IF r.s.acts[a].status # "pending" THEN Err(Dev(r.s, "D10"), "InvalidStateError")
           ELSE IF r.exc = NoExc THEN Ok(WakeRpcs([r.s EXCEPT !.acts[a].status = IF r.ret = "False" THEN "doneFalse" ELSE "done"], a), None)
           ELSE Ok(WakeRpcs([r.s EXCEPT !.acts[a].status = "failed:" \o r.exc], a), None)
